@@ -46,6 +46,7 @@ class Sys:
         self.plan = plan
         self.rng = rng
         self.time = VTime(s)
+        self.hooks: dict[str, Any] = {}
 
     def me(self) -> int | None:
         return getattr(self.s.tl, "i", None)
@@ -109,11 +110,17 @@ class OsProxy:
     def __getattr__(self, name: str) -> Any:
         return getattr(_os, name)
 
+    def _created(self, r: Any) -> Any:
+        h = self._sys.hooks.get("lock_created")
+        if h is not None:
+            h(self._sys.me())
+        return r
+
     def symlink(self, *a: Any, **k: Any) -> Any:
-        return self._sys.event("symlink", lambda: _os.symlink(*a, **k))
+        return self._sys.event("symlink", lambda: self._created(_os.symlink(*a, **k)))
 
     def open(self, *a: Any, **k: Any) -> Any:
-        return self._sys.event("os.open", lambda: _os.open(*a, **k))
+        return self._sys.event("os.open", lambda: self._created(_os.open(*a, **k)))
 
     def close(self, *a: Any, **k: Any) -> Any:
         return self._sys.event("os.close", lambda: _os.close(*a, **k))
@@ -122,7 +129,14 @@ class OsProxy:
         return self._sys.event("stat", lambda: _os.stat(*a, **k))
 
     def rename(self, *a: Any, **k: Any) -> Any:
-        return self._sys.event("rename", lambda: _os.rename(*a, **k))
+        def do() -> Any:
+            r = _os.rename(*a, **k)
+            h = self._sys.hooks.get("renamed")
+            if h is not None:
+                h(self._sys.me())
+            return r
+
+        return self._sys.event("rename", do)
 
     def unlink(self, *a: Any, **k: Any) -> Any:
         return self._sys.event("unlink", lambda: _os.unlink(*a, **k))
